@@ -466,6 +466,12 @@ func (w *World) directMods(fn *ssa.Function, blocks map[*ssa.BasicBlock]bool) *m
 // effectOfValue: the heaps written when the function / interface value v is
 // called or has methods invoked on it. ok=false means unknown (top).
 func (w *World) effectOfValue(caller *ssa.Function, v ssa.Value, out *modInfo, seen map[*ssa.Function]bool) {
+	if caller != nil {
+		if o := paramOrigin(caller, v, 0); o >= 0 {
+			out.dynParams[o] = true
+			return
+		}
+	}
 	switch x := v.(type) {
 	case *ssa.Function:
 		w.addFnEffect(x, out, seen)
@@ -613,27 +619,66 @@ func (w *World) inCycle(fn *ssa.Function) bool {
 	return false
 }
 
+// paramOrigin: the parameter a visitor-like value derives from: the parameter
+// itself, a phi of such values, or the result of invoking a method of the same
+// interface on such a value (Visitor.Visit / Rewriter-style "return the visitor
+// for the children"; implementations are assumed to return themselves, nil, or
+// a value with the same effects).
+func paramOrigin(caller *ssa.Function, v ssa.Value, depth int) int {
+	if depth > 6 {
+		return -1
+	}
+	switch x := v.(type) {
+	case *ssa.Parameter:
+		for i, p := range caller.Params {
+			if p == x {
+				return i
+			}
+		}
+	case *ssa.Phi:
+		res := -2
+		for _, e := range x.Edges {
+			if e == v {
+				continue
+			}
+			o := paramOrigin(caller, e, depth+1)
+			if o < 0 {
+				if _, isPhi := e.(*ssa.Phi); isPhi {
+					continue // cyclic phi
+				}
+				return -1
+			}
+			if res == -2 {
+				res = o
+			} else if res != o {
+				return -1
+			}
+		}
+		if res >= 0 {
+			return res
+		}
+	case *ssa.Call:
+		if x.Common().IsInvoke() && types.Identical(x.Common().Value.Type(), x.Type()) {
+			return paramOrigin(caller, x.Common().Value, depth+1)
+		}
+	case *ssa.ChangeInterface:
+		return paramOrigin(caller, x.X, depth+1)
+	}
+	return -1
+}
+
 func (w *World) calleeEffect(caller *ssa.Function, c *ssa.CallCommon, out *modInfo, seen map[*ssa.Function]bool) {
 	if c.IsInvoke() {
 		if _, ok := libInvoke[typeKey(c.Value.Type())+"."+c.Method.Name()]; ok {
 			out.names["Lib#rscur"] = true
 		}
+		if o := paramOrigin(caller, c.Value, 0); o >= 0 {
+			// the implementation is chosen by our caller: accounted for at the call site
+			out.dynParams[o] = true
+			return
+		}
 		mods, top := w.invokeModsSeen(c, seen)
-		if top {
-			// invoke on one of our own parameters: caller-dependent
-			if p, ok := c.Value.(*ssa.Parameter); ok {
-				for i, q := range caller.Params {
-					if q == p {
-						out.dynParams[i] = true
-					}
-				}
-				if w.trustedIface(c.Value.Type()) {
-					return
-				}
-			}
-			if w.trustedIface(c.Value.Type()) {
-				return
-			}
+		if top && !w.trustedIface(c.Value.Type()) {
 			out.top = true
 		}
 		for n := range mods {
@@ -849,7 +894,14 @@ func (w *World) canInline(fn *ssa.Function) bool {
 			}
 		}
 	}
-	return n <= 250 && !w.inCycle(fn)
+	if n > 250 || w.inCycle(fn) {
+		return false
+	}
+	// functions that call through their parameters are analysed at the call site, where the argument is known
+	if mi := w.modInfoOf(fn, map[*ssa.Function]bool{}); len(mi.dynParams) > 0 {
+		return false
+	}
+	return true
 }
 
 // fnTypeContract: the contract declared for function values of this signature, if any.
